@@ -200,8 +200,10 @@ class Ctx:
         self.extra = {}
         self.tolerances = {}
         self.known = [k for k in load_known() if k.get("property") == prop]
-        self.work = WORK / f"{prop}_{os.getpid()}"
-        self.work.mkdir(parents=True, exist_ok=True)
+        import tempfile
+
+        WORK.mkdir(parents=True, exist_ok=True)
+        self.work = Path(tempfile.mkdtemp(prefix=f"{prop}_{os.getpid()}_", dir=str(WORK)))
 
     # -- bookkeeping -------------------------------------------------------------------------
     def count(self, name, n=1):
